@@ -78,8 +78,28 @@ def rawless_schedules():
     ]
 
 
+def ahead_schedules():
+    """proxy ids AHEAD of the source's id space on one target stream (an idle source repeats its watermark-only batch: every
+    repetition takes a proxy id on every target stream), a slow and a fast target: the slow sender is inside Send of the first
+    repetition while the fast one forwards them all; then tasks for the slow target, which acknowledges only what precedes them.
+    The generated schedules use few watermark-only batches, so there proxy ids stay at or below the source's ids and a proxy-space
+    value leaking into the source's space goes unnoticed (it under-acknowledges)."""
+    out = []
+    for slow, m in ((1, 5), (2, 5), (1, 9)):
+        fast = 3 - slow
+        cmds = [{"c": "tasks", "s": 1, "k": 1}, {"c": "drain"}, {"c": "ack", "t": fast}]
+        for _ in range(m):
+            cmds += [{"c": "wm", "s": 1}, {"c": "send", "t": fast}]
+        cmds += [{"c": "send", "t": slow}] * m
+        cmds += [{"c": "tasks", "s": 1, "k": 2}, {"c": "send", "t": slow},
+                 {"c": "wm", "s": 1}, {"c": "send", "t": slow}, {"c": "send", "t": fast},
+                 {"c": "ack", "t": slow}, {"c": "ack", "t": fast}, {"c": "settle"}, {"c": "drain"}]
+        out.append({"id": "ahead-%d-slow%d" % (m, slow), "ns": 1, "nt": 2, "route": {"1": [fast, slow, slow]}, "late": [], "stride": 1, "cmds": cmds})
+    return out
+
+
 def bulk_and_rawless():
-    return bulk_schedules() + rawless_schedules()
+    return bulk_schedules() + rawless_schedules() + ahead_schedules()
 
 
 def bulk_fault_schedules():
@@ -129,10 +149,12 @@ PROFILES = {
                               post=["drain", "tick", "tick", "tick", "tick", "final"]),
     ("C04", "quick"): dict(extra=bulk_fault_schedules, design=[("c04_q.cfg", 600)],
                            gen=[("sim_c04.cfg", "bfs", 1, 2, [], 600), ("sim_c04s.cfg", "bfs", 1, 2, [], 250),
-                                ("sim_c04h.cfg", "bfs", 1, 2, [], 300, hold_filter)]),
+                                ("sim_c04h.cfg", "bfs", 1, 2, [], 300, hold_filter),
+                                ("sim_c04a.cfg", ("sim", 500, 100), 2, 1, [], 300)]),
     ("C04", "thorough"): dict(extra=bulk_fault_schedules, design=[("c04.cfg", 2400), ("c04s.cfg", 2400), ("c04_t1.cfg", 5400)],
                               gen=[("sim_c04.cfg", "bfs", 1, 2, [], 12000), ("sim_c04s.cfg", "bfs", 1, 2, [], 3000),
                                    ("sim_c04h.cfg", "bfs", 1, 2, [], 4000, hold_filter),
+                                   ("sim_c04a.cfg", ("sim", 3000, 100), 2, 1, [], 3000),
                                    ("sim_c04_t.cfg", ("sim", 300, 70), 2, 2, [], 3000)]),
 }
 
@@ -482,7 +504,7 @@ def run(c, a):
         c.violation(sig, "%s at %s (source %d id %d) in run %s" % (clause, json.dumps(run_ev[li]), s, tid, run_ev[0].get("id")),
                     {"kind": "routing-trace", "clause": clause, "trace": sched})
     # 5. conformance of the recorded runs with the design spec
-    conf_runs = [r for r in runs_only if not str(r[0].get("id", "")).startswith("bulk-") and not r[0].get("rawless")
+    conf_runs = [r for r in runs_only if not str(r[0].get("id", "")).startswith(("bulk-", "ahead-")) and not r[0].get("rawless")
                  and not any(e["ev"] == "SrcAckArm" for e in r)]
     if len(conf_runs) < len(runs_only):
         c.notes.append("%d constructed bulk runs (> 1024 tasks in flight) are judged by the monitor only: the trace spec is bounded "
